@@ -173,9 +173,10 @@ def _convert_ifexp(node: ast.IfExp) -> libsbml.ASTNode:
     true = _convert_node(node.body)
     false = _convert_node(node.orelse)
 
+    # piecewise(value, condition, otherwise)
     sbml_node = libsbml.ASTNode(libsbml.AST_FUNCTION_PIECEWISE)
-    sbml_node.addChild(condition)
     sbml_node.addChild(true)
+    sbml_node.addChild(condition)
     sbml_node.addChild(false)
     return sbml_node
 
@@ -245,30 +246,36 @@ def _convert_call(node: ast.Call) -> libsbml.ASTNode:
 
 
 def _convert_compare(node: ast.Compare) -> libsbml.ASTNode:
-    # FIXME: handle cases such as x < y < z
+    # x < y < z is (x < y) and (y < z)
+    comparisons = []
+    lefts = [node.left, *node.comparators[:-1]]
+    for left, cmp_op, right in zip(lefts, node.ops, node.comparators, strict=True):
+        match cmp_op:
+            case ast.Eq():
+                op = libsbml.AST_RELATIONAL_EQ
+            case ast.NotEq():
+                op = libsbml.AST_RELATIONAL_NEQ
+            case ast.Lt():
+                op = libsbml.AST_RELATIONAL_LT
+            case ast.LtE():
+                op = libsbml.AST_RELATIONAL_LEQ
+            case ast.Gt():
+                op = libsbml.AST_RELATIONAL_GT
+            case ast.GtE():
+                op = libsbml.AST_RELATIONAL_GEQ
+            case _:
+                raise NotImplementedError(type(cmp_op))
 
-    left = _convert_node(node.left)
-    right = _convert_node(node.comparators[0])
+        sbml_node = libsbml.ASTNode(op)
+        sbml_node.addChild(_convert_node(left))
+        sbml_node.addChild(_convert_node(right))
+        comparisons.append(sbml_node)
 
-    match node.ops[0]:
-        case ast.Eq():
-            op = libsbml.AST_RELATIONAL_EQ
-        case ast.NotEq():
-            op = libsbml.AST_RELATIONAL_NEQ
-        case ast.Lt():
-            op = libsbml.AST_RELATIONAL_LT
-        case ast.LtE():
-            op = libsbml.AST_RELATIONAL_LEQ
-        case ast.Gt():
-            op = libsbml.AST_RELATIONAL_GT
-        case ast.GtE():
-            op = libsbml.AST_RELATIONAL_GEQ
-        case _:
-            raise NotImplementedError(type(node.ops[0]))
-
-    sbml_node = libsbml.ASTNode(op)
-    sbml_node.addChild(left)
-    sbml_node.addChild(right)
+    if len(comparisons) == 1:
+        return comparisons[0]
+    sbml_node = libsbml.ASTNode(libsbml.AST_LOGICAL_AND)
+    for comparison in comparisons:
+        sbml_node.addChild(comparison)
     return sbml_node
 
 
